@@ -39,7 +39,7 @@ prop("C03", "exploration",
      _b(2000, 60, 100000, 1200))
 
 NOT_APPLICABLE = {}
-HOOK_COMMITS = ["a570d77", "0974401", "833dae9", "d356e32", "3e7972b", "deee054", "809cbd9", "1956e0d"]
+HOOK_COMMITS = ["a570d77", "0974401", "833dae9", "d356e32", "3e7972b", "deee054", "809cbd9", "1956e0d", "cdf5c3a", "0b7b493", "495cae2"]
 
 prop("C04", "exploration",
      "lifecycle world: 1-2 real requestors and a real responder, 1-3 requests, per request a scripted environment (request hook accept/terminate/pause/reject, block hook pause/error at block k, requestor response-hook error, requestor block-hook pause/error) and up to two caller/operator actions (context cancel, Cancel API, pause/unpause on either side, updates) enabled from a drawn step; fault family adds send failures, lost acks, connect failures, disconnects, store read errors and small retry counts; after heal every paused exchange is unpaused, then every open request is cancelled by its caller and drained; distinct = distinct trace hash",
@@ -98,3 +98,11 @@ prop("C18", "exploration",
 prop("C19", "exploration",
      "component harness: the real response assembler (peerLinkTracker + linktracker + responseBuilder) driven through ResponseStream transactions with a capturing message handler; generated histories (10-60 operations) interleave link traversals (6 CIDs, present or missing) of 2-5 requests of one peer with dedup-key assignments (two keys and the default scope), ignore lists, skip counts, FinishRequest and ClearRequest, then one later request that re-traverses everything; each send decision, block index and completeness status is compared with an executable model written from the statement; distinct = distinct trace hash",
      _b(3000, 60, 200000, 900), technique="seeded operation histories against an executable reference model (real component; message handler and subscriber are stubs)")
+
+_MQ = "component world: the real message queue, peer manager, allocator and publisher over the simulated network (real libp2p_impl.go codec and stream handling, scripted receiving peers); 2-11 queued operations (blocks of 100-300 B and occasionally 300 KiB so that two do not fit one message, extension data, status codes) for 1-3 requests of 1-2 peers, each operation carrying a unique marker so that reports can be attributed; Connected/Disconnected notifications in drawn number and order; send faults (fail, lost ack, stall until the write deadline), connect failures, 1-3 retries; a random subset of seven internal yield points (after the reservation, after the build, on entering the done arm, before the queue exits, before Shutdown in Disconnected, in the GetProcess miss window, between GetProcess and the call) is active per run"
+prop("C15", "fault_enumeration", _MQ + "; oracle: once all queues are idle AllocatedForPeer and Stats are zero; distinct = distinct trace hash",
+     _b(2000, 60, 100000, 1200), probes=["mq-conn", "mq-disc", "send-stalled"], technique="deterministic simulation of the real component with seeded fault placement and internal yield points")
+prop("C16", "exploration", _MQ + "; oracle: every operation built into a message is listed in exactly one Sent or Error report; per attached party and message at most one Queued, exactly one Sent/Error, then exactly one close; distinct = distinct trace hash",
+     _b(2000, 60, 100000, 1200), probes=["mq-conn", "mq-disc"], technique="deterministic simulation of the real component with seeded fault placement and internal yield points")
+prop("C17", "exploration", _MQ + "; oracle: never two live queue goroutines for one peer (observation hook at start and exit), none alive after the last disconnect, blocks reach the wire in build order; distinct = distinct trace hash",
+     _b(2000, 60, 100000, 1200), probes=["mq-conn", "mq-disc"], technique="deterministic simulation of the real component with seeded fault placement and internal yield points")
